@@ -173,29 +173,56 @@ func genC19(seed uint64, index int, tier string) *run.Plan {
 	if g.Intn(3) == 0 {
 		p.P["burst"] = 2 + g.Intn(4) // this many requests hit the server at the same instant
 	}
-	alter := 0
-	if g.Intn(5) != 0 {
-		alter = 1 + g.Intn(20)
+	// alterations: every check delivers the wallet's proof with one of them applied
+	nalt := 1 + g.Intn(2)
+	for i := 0; i < nalt; i++ {
+		alter := 0
+		if g.Intn(5) != 0 {
+			alter = 1 + g.Intn(20)
+		}
+		p.Faults = append(p.Faults, run.Fault{Kind: "alter", A: alter, B: g.Intn(1 << 16), C: g.Intn(8)})
 	}
-	p.Faults = append(p.Faults, run.Fault{Kind: "alter", A: alter, B: g.Intn(1 << 16), C: g.Intn(8)})
+	poison := g.Intn(6) == 0
+	if poison {
+		// a legitimate login first, then an attack that reuses parts of it at the same server:
+		// state kept between requests must not carry a verdict over to another address or key
+		p.Faults = []run.Fault{{Kind: "alter", A: []int{0, 17}[g.Intn(2)], B: g.Intn(1 << 16)}, {Kind: "alter", A: []int{18, 5, 1, 10, 11, 12, 20, 9}[g.Intn(8)], B: g.Intn(1 << 16), C: g.Intn(8)}}
+		p.P["exec"] = []int{1, 1, 2, 4, 0}[g.Intn(5)]
+	}
 	// checks: first delivery, then optional replays
 	times := []int{10, 200, lp / 2, lf / 2, lp - 1500, lp + 1500, lf - 1500, lf + 1500, lp + lf + 5000, 2 * 3600 * 1000}
 	n := 1 + g.Intn(3)
+	if poison {
+		n = 2 + g.Intn(2)
+	}
 	at := p.P["sign_delay_ms"]
 	for i := 0; i < n; i++ {
 		d := times[g.Intn(len(times))]
 		if d < 0 {
 			d = 0
 		}
-		if i == 0 {
+		if i == 0 || poison {
 			d = []int{0, 10, 200, d}[g.Intn(4)]
+			if poison {
+				d = []int{0, 10, 200}[g.Intn(3)]
+			}
 		}
 		at += d
 		srv := 0
-		if i > 0 && g.Intn(3) == 0 {
+		if i > 0 && !poison && g.Intn(3) == 0 {
 			srv = 1 + g.Intn(2)
 		}
-		p.Ops = append(p.Ops, run.Op{Kind: "check", AtMs: at, A: srv})
+		which := g.Intn(len(p.Faults))
+		if poison {
+			which = i
+			if which >= len(p.Faults) {
+				which = len(p.Faults) - 1
+			}
+		}
+		p.Ops = append(p.Ops, run.Op{Kind: "check", AtMs: at, A: srv, B: which})
+	}
+	if g.Intn(8) == 0 {
+		p.P["zero_key"] = 1 // the wallet's public key starts with a zero byte
 	}
 	return p
 }
@@ -220,18 +247,30 @@ func c19flipB64(s string, pos int, std bool) string {
 func execC19(t *testing.T, w *core.World, p *run.Plan, r *run.Result) {
 	ver := c19versions[p.Get("ver", 0)%len(c19versions)]
 	priv := c15key(p.Seed, 0)
+	if p.Get("zero_key", 0) == 1 {
+		// big-endian integers drop leading zero bytes: a key that starts with 0x00 exercises the padding
+		for k := 100; k < 5000; k++ {
+			cand := c15key(p.Seed, k)
+			if cand.Public().(ed25519.PublicKey)[0] == 0 {
+				priv = cand
+				break
+			}
+		}
+	}
 	pub := priv.Public().(ed25519.PublicKey)
 	apriv := c15key(p.Seed, 7) // attacker
 	apub := apriv.Public().(ed25519.PublicKey)
 	id := c15id{ver: ver, pub: pub, wc: p.Get("wc", 0), sub: -1}
 	aid := c15id{ver: ver, pub: apub, wc: p.Get("wc", 0), sub: -1}
 	domain := c19domains[p.Get("domain", 0)%len(c19domains)]
-	alter := 0
-	aB, aC := 0, 0
+	var alters []run.Fault
 	for _, f := range p.Faults {
 		if f.Kind == "alter" {
-			alter, aB, aC = f.A, f.B, f.C
+			alters = append(alters, f)
 		}
+	}
+	if len(alters) == 0 {
+		alters = []run.Fault{{Kind: "alter"}}
 	}
 	ex := &authExec{w: w, mode: p.Get("exec", 0), key: pub, delay: time.Duration(p.Get("exec_delay_ms", 0)) * time.Millisecond}
 	if p.Get("exec_key", 0) == 1 {
@@ -274,7 +313,7 @@ func execC19(t *testing.T, w *core.World, p *run.Plan, r *run.Result) {
 	secondPayload := issue(0)
 
 	// the wallet signs at t1 with its own (skewed) clock
-	var proof *tonconnect.Proof
+	var signed *tonconnect.Proof
 	signAt := time.Duration(p.Get("sign_delay_ms", 0)) * time.Millisecond
 	skew := time.Duration(p.Get("skew_s", 0)) * time.Second
 	realState, err := wallet.GenerateStateInit(pub, ver, nil, id.wc, nil)
@@ -294,6 +333,7 @@ func execC19(t *testing.T, w *core.World, p *run.Plan, r *run.Result) {
 		stack    string
 		proof    tonconnect.Proof
 		ord      int
+		alter    int
 	}
 	var verdicts []verdict
 	w.AtAbs(signAt, "wallet signs", func() {
@@ -304,8 +344,11 @@ func execC19(t *testing.T, w *core.World, p *run.Plan, r *run.Result) {
 			done = true
 			return
 		}
-		proof = pr
-		// ---- the channel: possibly alter the proof ----
+		signed = pr
+		w.Logf("proof signed")
+	})
+	// ---- the channel: every delivery may alter the proof ----
+	alterProof := func(proof *tonconnect.Proof, alter, aB, aC int) {
 		resign := func(key ed25519.PrivateKey) {
 			a, _ := ton.ParseAccountID(proof.Address)
 			sig := ed25519.Sign(key, c19message(a.Workchain, a.Address[:], proof.Proof.Domain, proof.Proof.Timestamp, proof.Proof.Payload))
@@ -398,8 +441,8 @@ func execC19(t *testing.T, w *core.World, p *run.Plan, r *run.Result) {
 				w.Probe("small-order-forgery-failed")
 			}
 		}
-		w.Logf("proof delivered alter=%d", alter)
-	})
+	}
+
 	for i, op := range p.Ops {
 		if op.Kind != "check" {
 			continue
@@ -410,9 +453,13 @@ func execC19(t *testing.T, w *core.World, p *run.Plan, r *run.Result) {
 			vmu.Lock()
 			opsScheduled++
 			vmu.Unlock()
-			if proof == nil {
+			if signed == nil {
 				return
 			}
+			alt := alters[op.B%len(alters)]
+			delivered := *signed
+			alterProof(&delivered, alt.A, alt.B, alt.C)
+			proof := &delivered
 			burst := p.Get("burst", 1)
 			if burst < 1 {
 				burst = 1
@@ -436,7 +483,7 @@ func execC19(t *testing.T, w *core.World, p *run.Plan, r *run.Result) {
 							issue(op.A % len(servers))
 						}()
 					}
-					v := verdict{at: w.Now(), srv: op.A, proof: pr, ord: i*16 + b}
+					v := verdict{at: w.Now(), srv: op.A, proof: pr, ord: i*16 + b, alter: alt.A}
 					func() {
 						defer func() {
 							if x := recover(); x != nil {
@@ -464,12 +511,13 @@ func execC19(t *testing.T, w *core.World, p *run.Plan, r *run.Result) {
 	vmu.Lock()
 	defer vmu.Unlock()
 	r.Nontrivial = len(verdicts) > 0
-	alt := "alter" + strconv.Itoa(alter)
 	sort.SliceStable(verdicts, func(i, j int) bool { return verdicts[i].ord < verdicts[j].ord })
 
 	for _, v := range verdicts {
 		s := servers[v.srv%len(servers)]
 		pr := v.proof
+		alter := v.alter
+		alt := "alter" + strconv.Itoa(alter)
 		if v.panicked != nil {
 			w.Violate("C19.panic", "C19.panic|"+stripNums(fmt.Sprint(v.panicked)), fmt.Sprintf("CheckProof panicked on %s (executor mode %d): %v at %s", alt, ex.mode, v.panicked, v.stack))
 			continue
